@@ -10,7 +10,11 @@ func genC15(p *Plan, r *RNG) {
 	if r.Chance(1, 15) {
 		// a stream client that reconnects from the same address while its old connection is
 		// still being cleaned up: two connections, one 5-tuple - and Server.Close at the end
-		genC06Reconnect(p, r)
+		if r.Chance(1, 2) {
+			genC06ReconnectRace(p, r)
+		} else {
+			genC06Reconnect(p, r)
+		}
 		p.Flavor = "teardown:" + p.Flavor
 		return
 	}
